@@ -42,6 +42,8 @@ theorem step_pending (cfg : Cfg) (s : St) (op : Op) :
   | authorize u c sc r =>
     left; simp only [step]
     split
+    · rfl
+    split
     · rename_i h; rw [(mint_ok_next h).2.2.2.2]
     · rfl
   | tokenParse cl code rd =>
